@@ -33,7 +33,15 @@ def near_tie_floats():
     return st.one_of(st.sampled_from(NEAR_TIE_FLOATS), st.builds(_neighbour, base, st.integers(-2, 2)))
 
 
-def single_objective_values(lo=-3, hi=3):
+def num(v):
+    """Cases are plain JSON: the infinities are written as the strings "inf" / "-inf"."""
+    return float(v) if isinstance(v, str) else v
+
+
+def single_objective_values(lo=-3, hi=3, infinities=False):
+    if infinities:
+        # the "invalid program" idiom: an infinite fitness (encoded as a string, see num())
+        return st.one_of(single_objective_values(lo, hi), single_objective_values(lo, hi), single_objective_values(lo, hi), st.sampled_from(["inf", "-inf"]))
     return st.one_of(
         st.integers(lo, hi),
         st.integers(lo, hi),
@@ -56,6 +64,7 @@ def as_form(v, form):
     """The same number as a fitness function written with numpy would return it (the documented
     return type is a number; numpy scalars are numbers). Values the dtype cannot hold exactly stay
     Python numbers."""
+    v = num(v)
     if form is None or isinstance(v, bool):
         return v
     import numpy as np
